@@ -929,3 +929,38 @@ Proof.
     apply chain_more with (c := 3); simpl; [auto|]. apply chain_one. simpl. auto.
   - vm_compute in E. injection E as <-. vm_compute in E'. discriminate.
 Qed.
+
+(* ---------------------------------------------------------------- the driver level stays inside the small-step system *)
+Lemma first_some_spec {A B} (f : A -> option B) l y : first_some f l = Some y -> exists x, In x l /\ f x = Some y.
+Proof.
+  induction l as [|a l IH]; simpl; [discriminate|]. destruct (f a) eqn:E.
+  - intros [= <-]. exists a. auto.
+  - intros H. destruct (IH H) as (x & Hin & Hx). exists x. auto.
+Qed.
+
+Lemma internal_step_reach ws gated n s s' : reach ws s -> internal_step ws gated n s = Some s' -> reach ws s'.
+Proof.
+  intros R. unfold internal_step.
+  destruct (first_some (fun a => try_labels ws s (internal_labels gated s a)) (seq 0 n)) as [s1|] eqn:E.
+  - intros [= <-]. apply first_some_spec in E as (a & _ & E). unfold try_labels in E.
+    apply first_some_spec in E as (l & _ & E). econstructor; eauto.
+  - destruct (term s) as [|a rest]; [discriminate|]. intros H. econstructor; eauto.
+Qed.
+
+Lemma quiesce_reach ws gated n fuel : forall s, reach ws s -> reach ws (quiesce ws gated n fuel s).
+Proof.
+  induction fuel as [|f IH]; intros s R; simpl; [assumption|].
+  destruct (internal_step ws gated n s) as [s'|] eqn:E; [|assumption].
+  apply IH. eapply internal_step_reach; eauto.
+Qed.
+
+Theorem drive_reach ws gated n s d : reach ws s -> reach ws (fst (drive ws gated n s d)).
+Proof.
+  intros R. unfold drive. destruct (drive1 ws s d) as [s'|] eqn:E; cbn [fst]; [|assumption].
+  apply quiesce_reach. destruct d; cbn [drive1] in E.
+  - eapply run_reach; eauto.
+  - econstructor; eauto.
+  - eapply run_reach; eauto.
+  - destruct (step ws s (LStopBegin a)) eqn:E2; injection E as <-; [econstructor; eauto|assumption].
+  - econstructor; eauto.
+Qed.
